@@ -42,7 +42,7 @@
 (*      `wit`: barrier, reaction change, clamp at 0, times R*T)            *)
 (*  Num_A_Species  printed pre-exponential factor = (kb/h) exp(dS/R) /      *)
 (*      site_den^(n-1) computed here from the species list of M (surface  *)
-(*      reactants counted, bulk and gas not) and the species' entropies   *)
+(*      reactants counted, bulk and gas not)                              *)
 (*  ReaderRaises, ReadBack (pmutt's reader returns, in file order, the     *)
 (*      reactions this specification reads in the same file)               *)
 (*  ReplayDoc (S->C: documents = the ones TLC expected)                     *)
@@ -194,13 +194,14 @@ SpeciesClauses(M, entries, wit, first, name) ==
           : k \in DOMAIN entries}
 
 \* ---- pre-exponential factor from the SPECIES LIST (not from ChemkinReaction.get_A).  Rule written
-\* in the header of surf.inp:  A = (kb/h) exp(dS_act/R) / site_den^(n - 1), n = number of surface
+\* in the header of surf.inp:  A = (kb/h) (q_TS/q_IS) / site_den^(n - 1), n = number of surface
 \* reactants (adsorbates; gas and BULK reactants are not counted and give no site density),
 \* site_den = sden_operation over the site densities of those n reactant sites (taken from M).
-\* Witness w = [ok, hasS, ts, is (<<coef, S_i/R>> from the species' own get_SoR), ds, ex = exp(ds)
-\* (libm sensor of the logged ds), op, eff (the harness' numpy value of site_den, verified here)].
+\* Witness w = [ok, hasQ, ex = ratio of the species' own partition functions get_q() (1 without a
+\* transition state, for the Gibbs methods and for empirical species), op, eff (the harness' numpy
+\* value of site_den, verified here by EffOK)].
 \* Checked without division:  printed A * site_den^(n-1) = (kb/h) * ex  to the printed precision
-\* plus 1e-5 relative (Dec sums of entropies, exp amplifies their absolute error).
+\* plus 1e-5 relative (kb/h held here to 8 digits, up to 8 Dec multiplications).
 KbOverH == <<208366120, 2>>
 SurfDens(M, r) ==
    LET piece(t) == IF M.sp[t[2]].ph # "G" /\ ~M.sp[t[2]].bulk /\ M.sp[t[2]].site > 0
@@ -221,10 +222,6 @@ EffOK(op, dens, eff) ==
         /\ 2 * Cardinality({k \in 1..n : Lt(eff, dens[k])}) <= n
         /\ \E a, b \in 1..n : Close(Add(eff, eff), Add(dens[a], dens[b]), 7)
    ELSE FALSE
-EntropyOK(w) ==
-   IF ~w.hasS THEN w.ex = <<1, 0>>
-   ELSE LET ts == TermVals(w.ts, <<1, 0>>)  is == TermVals(w.is, <<1, 0>>)
-        IN CloseIn(w.ds, Sub(SumSeq(ts), SumSeq(is)), Range(ts) \cup Range(is), 6)
 AValueOK(v, w, dens) ==
    LET P == IF Len(dens) = 0 THEN <<1, 0>> ELSE PowD(w.eff, Len(dens) - 1)
        lhs == Mul(v, P)
@@ -232,7 +229,7 @@ AValueOK(v, w, dens) ==
    IN Le(DAbs(Sub(lhs, rhs)), Add(Mul(<<525, v[2] - 3>>, P), <<rhs[1], rhs[2] - 5>>))
 AClauses(M, entries, awit) ==
    UNION {UNION {LET dens == SurfDens(M, M.rx[i]) IN
-                 IF ~(EffOK(awit[i].op, dens, awit[i].eff) /\ EntropyOK(awit[i])) THEN {"WitnessBroken"}
+                 IF ~EffOK(awit[i].op, dens, awit[i].eff) THEN {"WitnessBroken"}
                  ELSE Some(AValueOK(entries[k].nums[1], awit[i], dens), "Num_A_Species")
                  : i \in {x \in Denotes(M, entries[k]) : awit[x].ok /\ Len(entries[k].nums) >= 1}}
           : k \in DOMAIN entries}
